@@ -150,6 +150,11 @@ Definition units_get (m : list umeta) (unit key : bytes) : option umeta :=
 Definition unit_match (m : bytes -> bool) (v : value) : bool :=
   m (v_unit v) || (negb (beq (v_ounit v) []) && m (v_ounit v)).
 
+(** Match.Apply of a [.unit] term: the values it keeps, and whether any remain.
+    A filter holds no state between results. *)
+Definition unit_filter_apply (m : bytes -> bool) (vals : list value) : list value * bool :=
+  let k := filter (unit_match m) vals in (k, match k with [] => false | _ => true end).
+
 (** ** Specification: the tokenwise rewrite.
     A unit is the sequence of its runes; separator runes are '*', '/', '-'
     and white space; a token is a maximal run of other runes; a token is in
